@@ -5,17 +5,23 @@ from ..rules import pC11, sC11
 ID = 'C11'
 TECHNIQUE = ('finite-domain folding of the escaping functions of StringEncoding.py / Code._split_characters on their ASTs (checker-side constant folder; '
              'only builtins and `re` of the checker\'s interpreter are called) and comparison of the resulting tables with a reference reader of C string and '
-             'character literals (trigraphs, simple/octal/hex escapes, adjacent-literal concatenation) written from the C standard')
+             'character literals (trigraphs, simple/octal/hex escapes, adjacent-literal concatenation) written from the C standard; '
+             'decision table of the cut position of split_string_literal over the complete domain of token-shape sequences lying across a chunk end (C11-CUT)')
 DECIDES = ('C11-ESC: for each of the 256 byte values followed by any digit/hex letter, and for ~900 adversarial sequences (all pairs of representative bytes, '
            'trigraph leads ??x, runs of ? and of backslashes, quotes, digits after control bytes), the text produced by escape_byte_string consists of portable '
            'source characters and is read back as exactly the bytes (so: \\ " controls and >=128 are escaped, ?? never survives, numeric escapes cannot swallow what follows); '
-           'C11-SPLIT: split_string_literal, for boundaries falling into every position of every escape shape and into long backslash runs (limit 16 and 17), '
-           'only inserts `""` between complete tokens, terminates, and the pieces concatenate to the unsplit value; '
+           'C11-CUT: split_string_literal reads its text only through comparisons with the backslash (checked syntactically; otherwise ANALYSIS-ERROR), so its '
+           "input space is exactly the sequences of the escaper's token shapes (x, \\x, \\\\, \\xxx - taken from escape_byte_string folded over all 256 bytes); for EVERY such "
+           'sequence whose length lies in [limit, limit + longest escape) - every way tokens can lie before, across and after the nominal chunk end, with backslash runs of '
+           'every class (none/odd/even, ending inside the chunk or reaching its start) - at limits 6 and 7 (both parities) and behind a full first chunk (start != 0), '
+           'the function terminates, only inserts `""`, and the pieces are read back as the unsplit value, i.e. every cut is a token boundary; '
+           '(C11-SPLIT, the earlier sampled variant of this, stays unregistered); '
            "C11-TOK: Code._split_characters cuts escaped text into tokens that are each a valid C character constant of the right byte (so ' must be escaped by the escaper); "
            "C11-CHR: escape_char yields a valid character constant of the same value for all 256 bytes (' and \\ quoted); "
            'C11-SRC: every text given to split_string_literal comes from escape_byte_string or is joined from constant separators that are complete, suffix-safe escapes.')
-NOT_DECIDED = ('split_string_literal at its production limit of 2000 and on token sequences longer than the adversarial family (the function is folded for limit 16/17: '
-               'its look-back logic does not depend on the limit, but that is an argument, not a check); homomorphism of escape_byte_string on arbitrary long inputs beyond the '
+NOT_DECIDED = ('that the cut table of split_string_literal computed at limits 6/7 is the table at the production limit 2000 (the function uses `limit` only additively and '
+               'through `limit % 2`, both parities are tabulated and a look-back of bounded width plus a backslash run cannot distinguish more classes than occur at the small '
+               'limits - but that transfer is an argument, not a check); homomorphism of escape_byte_string on arbitrary long inputs beyond the '
                'pair/triple contexts (the replacer is a regex alternation of fixed strings plus a per-byte loop); C compilers\' limits on literal length (MSVC 2K/64K rules); '
                'that every emitter of a C string in the compiler goes through these functions.')
 ASSUMPTIONS = [
@@ -47,6 +53,16 @@ MUTATIONS = [
     ('Cython/Compiler/StringEncoding.py', 'escape_char: `n >= 127` -> `n >= 161`', 'C11-CHR char:high'),
     ('Cython/Compiler/Code.py', "generate_num_constants: b'\\\\000'.join -> b'\\\\0'.join", 'C11-SRC split-arg:Code.generate_num_constants'),
 ]
+# second round (C11-CUT, sa/rules/sC11.py): seed C11a + single-edit variants of the same mechanism, all reported by C11-CUT
+MUTATIONS += [
+    ('Cython/Compiler/StringEncoding.py', "seed C11a: pos = s.find('\\\\', end-4, end); adjust only `if pos > end-4`", 'C11-CUT split_string_literal:cut:inside-escape'),
+    ('Cython/Compiler/StringEncoding.py', "split_string_literal: condition `'\\\\' in s[end-4:end]` -> `s[end-2:end]`", 'C11-CUT cut:inside-escape'),
+    ('Cython/Compiler/StringEncoding.py', "split_string_literal: `while s[end-1] == '\\\\'` loop removed", 'C11-CUT cut:inside-escape'),
+    ('Cython/Compiler/StringEncoding.py', "split_string_literal: `while s[end-1] == '\\\\'` -> `if` (steps back once)", 'C11-CUT cut:inside-escape'),
+    ('Cython/Compiler/StringEncoding.py', 'split_string_literal: fallback `- 4` -> `- 3`', 'C11-CUT cut:inside-escape'),
+    ('Cython/Compiler/StringEncoding.py', 'split_string_literal: fallback `- (limit % 2)` dropped', 'C11-CUT cut:inside-escape (limit 7)'),
+    ('Cython/Compiler/StringEncoding.py', 'split_string_literal: `if end == start` -> `if end == 0`', 'C11-CUT cut:termination'),
+]
 # behaviour-preserving edits - all silent
 PRESERVING = [
     ('Cython/Compiler/StringEncoding.py', "escape_byte_string: b'\\\\%03o' % b -> b'\\\\%o' % b (every byte >= 127 has three octal digits anyway; the design's own example mutation)", 'silent'),
@@ -55,6 +71,12 @@ PRESERVING = [
     ('Cython/Compiler/StringEncoding.py', 'split_string_literal: `end -= 4 - ...find` -> `end -= 3 - ...find` (the backslash-run loop steps back over the backslash again)', 'silent'),
     ('Cython/Compiler/StringEncoding.py', "_c_special reordered, local `subexps` renamed, escape_char: f\"\\\\x{n:02X}\" -> f\"\\\\x{n:x}\"", 'silent'),
     ('Cython/Compiler/StringEncoding.py', "_to_escape_sequence: the `elif s == '\\\\'` branch removed, so a backslash is written \\134 instead of \\\\", 'silent'),
+    # second round, with C11-CUT registered
+    ('Cython/Compiler/StringEncoding.py', 'split_string_literal: look-back window 4 -> 3 in condition, slice and subtraction', 'silent'),
+    ('Cython/Compiler/StringEncoding.py', 'split_string_literal: `end -= 4 - ...find` -> `end -= 3 - ...find`', 'silent'),
+    ('Cython/Compiler/StringEncoding.py', "split_string_literal: `.find` -> `.rfind` (cut in front of the last maximal backslash run of the window - also a token boundary)", 'silent'),
+    ('Cython/Compiler/StringEncoding.py', "split_string_literal: window test rewritten as `pos = s.find('\\\\', max(end-4, start), end); if pos >= 0: end = pos`", 'silent'),
+    ('Cython/Compiler/StringEncoding.py', 'split_string_literal: local `chunks` renamed, separator bound to a local before .join', 'silent'),
 ]
 
 
@@ -63,4 +85,6 @@ def run(ctx):
     # C11-SPLIT and C11-TOK (pC11.rule_split / rule_char_tokens) interpret split_string_literal / _split_characters on generated
     # boundary inputs.  That is bounded testing through an interpreter rather than a static decision, so they are not part of
     # the registered check (see DESIGN.md section 9); the exhaustive per-byte tables and the source rule remain.
+    # C11-CUT (sC11.rule_cut) replaces the sampled family of C11-SPLIT by the complete domain of the function's exact input
+    # abstraction (sequences of the escaper's token shapes across one chunk end): a decision table, not a sample.
     return [esc, pC11.rule_escape_char(ctx), pC11.rule_raw_literals(ctx), sC11.rule_cut(ctx)]
